@@ -40,11 +40,14 @@ META = {
 }
 
 
-def lp_task(p, cx):
+def lp_task(p, cx, realidx=()):
+    """realidx: positions whose reflection coefficient is real-VALUED inside a complex-typed set (value-dependent fast paths)"""
     def run(tc):
         dom, I = e3_interp(tc, names_for(p, cx))
-        E = E3(tc, dom, "lp", {"p": p, "complex": cx}, tc.seed)
+        E = E3(tc, dom, "lp", dict({"p": p, "complex": cx}, **({"realidx": list(realidx)} if realidx else {})), tc.seed)
         ks = ksyms(dom, p, cx)
+        for j in realidx:
+            ks[j] = Cx(ks[j].re, Fraction(0))
         r0 = dom.sym("r0")
         r, a, P = ac_from_rc(r0, ks)
         dt = "complex" if cx else "float"
@@ -83,7 +86,7 @@ def lp_task(p, cx):
                 v2 = E.run(I, lambda I_: I_.call_qual("spectrum.levinson.levdown", mk(poly), P))
                 if v2 is not None:
                     E.eq("levdown(levup(a,k))=a", v2[0], prev)
-    return Task("lp.%s.p%d" % ("complex" if cx else "real", p), run, kind="bounded", prerun=True,
+    return Task("lp.%s.p%d" % (("complex" if cx else "real") + ("-with-real-valued-k%s" % "".join(str(j + 1) for j in realidx) if realidx else ""), p), run, kind="bounded", prerun=True,
                 functions=["spectrum.linear_prediction.*", "spectrum.levinson.rlevinson"])
 
 
@@ -241,6 +244,9 @@ def tasks(tier):
     for cx in (False, True):
         for p in range(1, (pmax if not cx else pmax - 1) + 1):
             ts.append(lp_task(p, cx))
+    # complex-typed sets in which one coefficient happens to be real-valued (a measure-zero slice of the generic complex runs)
+    for (p, ri) in [(2, (1,)), (3, (1,)), (3, (2,))] + ([] if tier == "quick" else [(4, (1, 3)), (4, (2,))]):
+        ts.append(lp_task(p, True, ri))
     for w in ("lar", "lar-inv", "is", "is-inv"):
         ts.append(scalar_task(w))
     ts += [reject_task("rc2lar"), reject_task("rc2is")]
